@@ -3,7 +3,8 @@
    [s' = s] says the world is literally unchanged AND nothing was published,
    so no service saw anything either. *)
 From Coq Require Import ZArith List Bool.
-From EosV Require Import lib.AList model.World model.Ops proofs.Rack_p proofs.Containers_p.
+From EosV Require Import lib.AList model.World model.Ops proofs.Rack_p proofs.Containers_p proofs.Owner_p proofs.Cinv_p
+     proofs.Raise_p.
 Import ListNotations.
 
 Theorem C06_rack_append_raise : forall s f k i x s', rack_append s f k i = (s', RExn x) -> s' = s.
@@ -48,6 +49,26 @@ Proof. exact slot_set_raise_fits. Qed.
 
 (* the side condition of the rack theorems is an invariant: every rack
    operation that goes through _cleanup or appends an item re-establishes it *)
+(* a rejected single-slot assignment (ship, stance, character, beacon) restores
+   every item's container reference (together with C06_slot_set_raise_partial:
+   every container of every fit), in any consistent world *)
+Theorem C06_slot_set_raise_keeps_ownership : forall s f k new x s',
+  CI (fst s) -> slot_set_op s f k new = (s', RExn x) ->
+  forall j, fitcont (fst s') j = fitcont (fst s) j.
+Proof. exact slot_set_raise_ownership. Qed.
+
+(* an unknown source alias is refused before anything is touched *)
+Theorem C06_unknown_source_alias_noop : forall s x y sid,
+  get_ss (fst s) x = Some y -> onat_eqb (ss_source y) (Some sid) = false -> get_src (fst s) sid = None ->
+  source_set_op s x (Some sid) = (s, RExn XUnknownSource).
+Proof. exact source_unknown_alias_noop. Qed.
+
+(* fleet and solar-system membership errors: nothing changed, nothing published *)
+Theorem C06_membership_errors_change_nothing : forall s a b x s',
+  (fleet_add_op s a b = (s', RExn x) \/ fleet_remove_op s a b = (s', RExn x) \/
+   solsys_add_op s a b = (s', RExn x) \/ solsys_remove_op s a b = (s', RExn x)) -> s' = s.
+Proof. exact membership_errors_change_nothing. Qed.
+
 Theorem C06_no_trailing_hole_after_remove : forall s f k a s',
   has_fit (fst s) f -> rack_remove s f k a = (s', ROk) -> no_trailing_hole (get_rack (fst s') f k).
 Proof. exact rack_remove_no_trailing. Qed.
@@ -78,3 +99,6 @@ Print Assumptions C06_skill_del_raise.
 Print Assumptions C06_slot_set_raise_partial.
 Print Assumptions C06_no_trailing_hole_after_remove.
 Print Assumptions C06_no_trailing_hole_after_append.
+Print Assumptions C06_slot_set_raise_keeps_ownership.
+Print Assumptions C06_unknown_source_alias_noop.
+Print Assumptions C06_membership_errors_change_nothing.
